@@ -597,6 +597,27 @@ def handle (line : String) : String :=
       some (match runVisitor (render p) with
         | .ok cs => showRes (discovered own (resolveWith tbl pm) (some cs))
         | .error e => "err " ++ showErr e)
+    | "pautom" :: pm :: k :: rest => do
+      -- the wrapper is a method, retrieved through an instance
+      let (tbl, rest) ← parseResolve (← k.toNat?) rest
+      let (own, rest) ← parseSig rest
+      let (p, rest') ← parseProg rest
+      if rest' ≠ [] then none else
+      some (match runVisitor (render p) with
+        | .ok cs => showRes (discoveredMethod own (resolveWith tbl pm) (some cs))
+        | .error e => "err " ++ showErr e)
+    | "pautop" :: n :: kw :: pobj :: pm :: k :: rest => do
+      -- functools.partial(wrapper, <n positionals>, **kw)
+      let (tbl, rest) ← parseResolve (← k.toNat?) rest
+      let (own, rest) ← parseSig rest
+      let (p, rest') ← parseProg rest
+      if rest' ≠ [] then none else
+      let kws ← parsePairs kw "."
+      let n' ← n.toNat?
+      let po ← pobj.toNat?
+      some (match runVisitor (render p) with
+        | .ok cs => showRes (discoveredPartial own (resolveWith tbl pm) (some cs) n' kws po)
+        | .error e => "err " ++ showErr e)
     | "pdeclared" :: pm :: k :: rest => do
       -- the same from the GROUND TRUTH instead of the visitor (C06's expected value)
       let (tbl, rest) ← parseResolve (← k.toNat?) rest
